@@ -1,4 +1,5 @@
 mod common;
+mod c12;
 mod c19;
 mod c10;
 mod c13;
@@ -25,6 +26,7 @@ fn main() {
         "C13" => c13::run(&args),
         "C10" => c10::run(&args),
         "C19" => c19::run(&args),
+        "C12" => c12::run(&args),
         x => {
             eprintln!("unknown property {}", x);
             std::process::exit(2);
